@@ -450,7 +450,12 @@ fn cmd_vary(args: &[String]) -> i32 {
 fn cmd_digest(args: &[String]) -> i32 {
     let prop = arg_val(args, "--property").expect("--property");
     let engine = engine_for(&prop).expect("unknown property");
-    let runs: u64 = arg_val(args, "--runs").map(|s| s.parse().unwrap()).unwrap_or(200);
+    // `--runs quick` = the run count of the quick tier (hit-rate measurements of the self-tests)
+    let runs: u64 = match arg_val(args, "--runs").as_deref() {
+        Some("quick") => engine.runs(false),
+        Some(s) => s.parse().unwrap(),
+        None => 200,
+    };
     let seed: u64 = std::env::var("VERIF_SEED").ok().and_then(|s| s.parse().ok()).unwrap_or(DEFAULT_SEED);
     let threads: usize = std::env::var("SIM_THREADS").ok().and_then(|s| s.parse().ok()).unwrap_or(16);
     let lines = Mutex::new(BTreeMap::new());
